@@ -121,8 +121,13 @@ class Conv:
         if isinstance(t, ast.Name):
             return ["TName", t.id]
         if isinstance(t, (ast.Tuple, ast.List)):
-            if any(isinstance(e, ast.Starred) for e in t.elts):
-                return ["TMustReject", "starred target"]
+            stars = [i for i, e in enumerate(t.elts) if isinstance(e, ast.Starred)]
+            if len(stars) == 1:
+                i = stars[0]
+                return ["TStar", [self.target(e) for e in t.elts[:i]], self.target(t.elts[i].value),
+                        [self.target(e) for e in t.elts[i + 1:]]]
+            if stars:
+                return ["TMustReject", "several starred targets"]
             return ["TTuple", [self.target(e) for e in t.elts]]
         if isinstance(t, ast.Subscript):
             return ["TSub", self.expr(t.value), self.expr(t.slice)]
